@@ -130,15 +130,17 @@ PLAN["C15"] = dict(
                 "true component); closed + inside = exactly the component. (3) all_components: the returned sets cover the node set (ghost map "
                 "comp_of), are pairwise disjoint, each closed under adjacency and inside one class of every link-closed equivalence, and the "
                 "visited flags are reset. (4) dfs: the returned list starts at the start node, has no repeated node, is closed under adjacency and "
-                "stays inside the component (all three exits of the function). "
+                "stays inside the component (all three exits of the function). Both work-list loops (find_component, dfs) TERMINATE: lexicographic "
+                "measure (nodes not yet collected, length of the work list), using the insertion law of cardinality and one instance of its monotonicity. "
                 "BOUNDED only: biccs (iterative Hopcroft-Tarjan): exhaustive comparison with the definitions on all small graphs "
                 "(see coverage.bounded); the same enumeration also re-checks everything above on the real objects.",
     trusted_base=["Node.neighbors caller view = Skolem form (position function nbrpos) of the existential postcondition verified on its body (Node.neighbors#body)",
                   "GFA.set_visited caller view (body mutates nodes through dict.values(): aliasing not modelled)",
                   "is_correct_tag caller view (an accepted tag splits into three parts); Node(...) constructor model (compared with Node.__init__ on every run)",
                   "remove_node: the contig_to_nodes clean-up is not modelled (alias_ok), nothing is claimed about contig_to_nodes",
+                  "cardinality of finite sets: uninterpreted, with the insertion law card(S + {x}) = card(S) + [x not in S] and the instance 'a set of nodes has at most as many elements as the graph has nodes' (card_mono), assumed at the two loop heads",
                   "biccs: BOUNDED stand-in only (never counted as proved)"],
-    not_applicable_clauses=["biccs beyond the enumerated bound; termination of the work-list loops"],
+    not_applicable_clauses=["biccs beyond the enumerated bound"],
     mutations=[
         dict(name="add_edge second end on the wrong side", file=GFA, old="        if node2_dir == 0:\n            self[node2].add_from_start(node1, node1_dir, overlap)", new="        if node2_dir == 1:\n            self[node2].add_from_start(node1, node1_dir, overlap)", expect="add_edge", functions=[(GFA, "GFA.add_edge")]),
         dict(name="remove_edge forgets the second end", file=GFA, old="        if side2 == 0:\n            self.nodes[n2].remove_from_start(n1, side1, overlap)\n        else:\n            self.nodes[n2].remove_from_end(n1, side1, overlap)", new="        if side2 == 0:\n            self.nodes[n2].remove_from_start(n1, side1, overlap)", expect="remove_edge", functions=[(GFA, "GFA.remove_edge")], quick=False),
@@ -147,6 +149,7 @@ PLAN["C15"] = dict(
         dict(name="remove_edge keeps the tags stored by the other end", file=GFA, old="        self.edge_tags.pop((n2, side2, n1, side1), None)\n", new="", expect="remove_edge", functions=[(GFA, "GFA.remove_edge")]),
         dict(name="remove_node unlinks the end side from the wrong side", file=GFA, old="            self.remove_edge((n_id, 1, n_end[0], n_end[1], overlap))", new="            self.remove_edge((n_id, 0, n_end[0], n_end[1], overlap))", expect="remove_node", functions=[(GFA, "GFA.remove_node")]),
         dict(name="add_node replaces an existing node", file=GFA, old="        if node_id not in self:\n            node = Node(node_id)", new="        if True:\n            node = Node(node_id)", expect="add_node", functions=[(GFA, "GFA.add_node")], quick=False),
+        dict(name="dfs re-expands a node it has already output (never terminates on a cycle)", file=GFA, old="            else:\n                continue\n            for neighbour in self[s].neighbors():", new="            for neighbour in self[s].neighbors():", expect="dfs", functions=[(GFA, "GFA.dfs")]),
         dict(name="dfs follows only the first neighbour", file=GFA, old="            for neighbour in self[s].neighbors():\n                stack.append(neighbour)", new="            for neighbour in self[s].neighbors()[:1]:\n                stack.append(neighbour)", expect="dfs", functions=[(GFA, "GFA.dfs")], quick=False),
     ],
 )
